@@ -115,6 +115,18 @@ func patPacket(r *rand.Rand, payload []byte, withAF bool) packet.Packet {
 	return p
 }
 
+// plainOther: a payload-only packet of a random PID other than 0 (for streams whose alignment a sync search decides).
+func plainOther(r *rand.Rand) packet.Packet {
+	var p packet.Packet
+	r.Read(p[:])
+	p[0] = 0x47
+	p[3] = p[3]&0x0f | 0x10
+	if p[1]&0x1f == 0 && p[2] == 0 {
+		p[2] = 1
+	}
+	return p
+}
+
 func otherPacket(r *rand.Rand) packet.Packet {
 	var p packet.Packet
 	r.Read(p[:])
